@@ -137,7 +137,9 @@ def check(prog, res, tier):
     assigned = {n.id for n in ast.walk(cfi.node) if isinstance(n, ast.Name) and isinstance(n.ctx, ast.Store)}
     for nm in sorted(names - params - assigned):
         r = prog.resolve_name(cfi.module, nm)
-        if r is not None and r[0] == 'const':
+        if r is not None and r[0] == 'const' and isinstance(r[1], (ast.List, ast.Dict, ast.Set, ast.ListComp, ast.DictComp, ast.SetComp, ast.Call)):
+            if isinstance(r[1], ast.Call) and isinstance(r[1].func, ast.Name) and r[1].func.id in ('tuple', 'frozenset', 'range', 'int', 'str', 'bytes'):
+                continue
             free.append(nm)
     if free and ob.verdict == PROVED:
         ob.verdict, ob.detail = UNDECIDED, f'reads module-level values {free}'
